@@ -308,6 +308,169 @@ FindList(items, i, f, S) ==
          ELSE IF r.v.k # "bool" THEN Halt(r.s, "stuck:find-predicate")
          ELSE IF r.v.v THEN Ok(r.s, JustV(items[i])) ELSE FindList(items, i + 1, f, r.s)
 
+RECURSIVE StdExtra(_, _, _)
+(***************************************************************************)
+(* Standard-library helpers beyond the core list operations (used by the   *)
+(* corpus trace validation of C01; contracts as in SyltStd / std/*.sy).    *)
+(* Sets and dicts are heap objects holding their members / entries in      *)
+(* insertion order; membership and key lookup are by StructEq.  Wherever   *)
+(* the ORDER of an unordered container would become observable (for_each   *)
+(* over two or more entries, a map whose results collide, printing) the    *)
+(* case is dropped (`drop:*`), never guessed.                              *)
+(***************************************************************************)
+IsKind(S, v, kd) == v.k = "ref" /\ S.heap[v.a].k = kd
+IsMaybe(v) == v.k = "variant" /\ v.tag \in {"Just", "None"}
+NewDictObj == [k |-> "dict", keys |-> <<>>, vals |-> <<>>]
+NewSetObj == [k |-> "set", items |-> <<>>]
+KeyIdx(ks, key, heap) == LET hits == {i \in 1..Len(ks) : StructEq(ks[i], key, heap)} IN
+                         IF hits = {} THEN 0 ELSE CHOOSE i \in hits : \A j \in hits : i <= j
+SemDropAt(q, i) == SubSeq(q, 1, i - 1) \o SubSeq(q, i + 1, Len(q))
+DictPut(o, key, val, heap) == LET i == KeyIdx(o.keys, key, heap) IN
+                              IF i = 0 THEN [o EXCEPT !.keys = Append(@, key), !.vals = Append(@, val)]
+                              ELSE [o EXCEPT !.vals[i] = val]
+SetPut(o, x, heap) == IF KeyIdx(o.items, x, heap) = 0 THEN [o EXCEPT !.items = Append(@, x)] ELSE o
+IsPair(v) == v.k = "tuple" /\ Len(v.es) = 2
+RECURSIVE DictFromPairs(_, _, _, _)
+DictFromPairs(o, ps, i, heap) == IF i > Len(ps) THEN o
+                                 ELSE DictFromPairs(DictPut(o, ps[i].es[1], ps[i].es[2], heap), ps, i + 1, heap)
+RECURSIVE SetFromItems(_, _, _, _)
+SetFromItems(o, xs, i, heap) == IF i > Len(xs) THEN o ELSE SetFromItems(SetPut(o, xs[i], heap), xs, i + 1, heap)
+AllocRef(S, obj) == LET S1 == Alloc(S, obj) IN Ok(S1, RefV(LastAddr(S1)))
+NumZero(a) == IF a.k = "int" THEN IntV(0) ELSE FloatV(0, 0)
+NumSgn(a) == IF NumLt(NumZero(a), a) THEN 1 ELSE IF NumLt(a, NumZero(a)) THEN 0 - 1 ELSE 0
+FloorDivI(a, b) == IF b > 0 THEN a \div b ELSE (0 - a) \div (0 - b)
+PrintEvent(S, snap) == [S EXCEPT !.out = Append(@, [k |-> "print", v |-> snap])]
+
+StdExtra(name, args, S) ==
+    CASE name = "dbg" -> Ok(PrintEvent(S, Render(args[1], S.heap, 6)), args[1])
+      [] name = "spy" ->
+           LET r == Render(args[2], S.heap, 6) IN
+           IF args[1].k # "str" THEN Halt(S, "stuck:spy-tag")
+           ELSE IF ~Printable(r) THEN Halt(S, "drop:text-of-unprintable")
+           ELSE Ok(PrintEvent(S, StrV(args[1].v \o " " \o SnapText(r))), args[2])
+      [] name = "as_str" ->
+           LET r == Render(args[1], S.heap, 6) IN
+           IF Printable(r) THEN Ok(S, StrV(SnapText(r))) ELSE Halt(S, "drop:text-of-unprintable")
+      [] name = "as_float" ->
+           IF ~IsNum(args[1]) THEN Halt(S, "stuck:as_float-of-" \o args[1].k)
+           ELSE Ok(S, IF args[1].k = "int" THEN FloatV(args[1].v, 0) ELSE args[1])
+      [] name = "as_int" ->     \* truncation towards zero
+           IF ~IsNum(args[1]) THEN Halt(S, "stuck:as_int-of-" \o args[1].k)
+           ELSE Ok(S, IF args[1].k = "int" THEN args[1]
+                      ELSE IF args[1].n >= 0 THEN IntV(args[1].n \div Pow2(args[1].d))
+                      ELSE IntV(0 - ((0 - args[1].n) \div Pow2(args[1].d))))
+      [] name = "math.floor" ->  \* the largest int <= x
+           IF ~IsNum(args[1]) THEN Halt(S, "stuck:floor-of-" \o args[1].k)
+           ELSE Ok(S, IF args[1].k = "int" THEN args[1] ELSE IntV(args[1].n \div Pow2(args[1].d)))
+      [] name = "math.abs" ->
+           IF ~IsNum(args[1]) THEN Halt(S, "stuck:abs-of-" \o args[1].k)
+           ELSE Ok(S, IF NumSgn(args[1]) < 0 THEN Negate(args[1]) ELSE args[1])
+      [] name = "math.sign" ->   \* keeps the number type
+           IF ~IsNum(args[1]) THEN Halt(S, "stuck:sign-of-" \o args[1].k)
+           ELSE Ok(S, IF args[1].k = "int" THEN IntV(NumSgn(args[1])) ELSE FloatV(NumSgn(args[1]), 0))
+      [] name \in {"math.min", "math.max"} ->
+           IF ~IsNum(args[1]) \/ ~IsNum(args[2]) THEN Halt(S, "stuck:min-max-args")
+           ELSE Ok(S, IF name = "math.min" THEN (IF NumLt(args[2], args[1]) THEN args[2] ELSE args[1])
+                      ELSE (IF NumLt(args[1], args[2]) THEN args[2] ELSE args[1]))
+      [] name = "math.clamp" ->  \* clamp(x, lo, hi), specified for lo <= hi
+           IF ~IsNum(args[1]) \/ ~IsNum(args[2]) \/ ~IsNum(args[3]) THEN Halt(S, "stuck:clamp-args")
+           ELSE IF NumLt(args[3], args[2]) THEN Halt(S, "drop:clamp-lo-above-hi")
+           ELSE Ok(S, IF NumLt(args[1], args[2]) THEN args[2] ELSE IF NumLt(args[3], args[1]) THEN args[3] ELSE args[1])
+      [] name = "math.div" ->    \* floor division; div(a, 0) is not specified
+           IF args[1].k # "int" \/ args[2].k # "int" THEN Halt(S, "stuck:div-args")
+           ELSE IF args[2].v = 0 THEN Halt(S, "drop:div-by-zero")
+           ELSE Ok(S, IntV(FloorDivI(args[1].v, args[2].v)))
+      [] name = "unsafe_force" -> Ok(S, args[1])      \* changes the static type only
+      [] name = "list.set" ->    \* out of range: nothing happens
+           IF ~IsList(S, args[1]) \/ args[2].k # "int" THEN Halt(S, "stuck:set-args")
+           ELSE LET i == args[2].v IN
+                IF i >= 0 /\ i < Len(S.heap[args[1].a].items)
+                THEN Ok([S EXCEPT !.heap[args[1].a].items[i + 1] = args[3]], NilV) ELSE Ok(S, NilV)
+      [] name = "list.contains" ->
+           IF ~IsList(S, args[1]) THEN Halt(S, "stuck:contains-on-non-list")
+           ELSE Ok(S, BoolV(KeyIdx(S.heap[args[1].a].items, args[2], S.heap) # 0))
+      [] name = "list.last" ->
+           IF ~IsList(S, args[1]) THEN Halt(S, "stuck:last-on-non-list")
+           ELSE LET it == S.heap[args[1].a].items IN Ok(S, IF Len(it) = 0 THEN NoneV ELSE JustV(it[Len(it)]))
+      [] name = "maybe.orDefault" ->
+           IF ~IsMaybe(args[1]) THEN Halt(S, "stuck:maybe-arg") ELSE Ok(S, IF args[1].tag = "Just" THEN args[1].val ELSE args[2])
+      [] name = "maybe.flatten" ->
+           IF ~IsMaybe(args[1]) THEN Halt(S, "stuck:maybe-arg") ELSE Ok(S, IF args[1].tag = "Just" THEN args[1].val ELSE NoneV)
+      [] name = "maybe.isJust" ->
+           IF ~IsMaybe(args[1]) THEN Halt(S, "stuck:maybe-arg") ELSE Ok(S, BoolV(args[1].tag = "Just"))
+      [] name = "maybe.isNone" ->
+           IF ~IsMaybe(args[1]) THEN Halt(S, "stuck:maybe-arg") ELSE Ok(S, BoolV(args[1].tag = "None"))
+      [] name = "maybe.andThen" ->
+           IF ~IsMaybe(args[1]) THEN Halt(S, "stuck:maybe-arg")
+           ELSE IF args[1].tag = "Just" THEN CallValue(args[2], <<args[1].val>>, S) ELSE Ok(S, NoneV)
+      [] name = "maybe.map" ->
+           IF ~IsMaybe(args[1]) THEN Halt(S, "stuck:maybe-arg")
+           ELSE IF args[1].tag = "None" THEN Ok(S, NoneV)
+           ELSE LET r == CallValue(args[2], <<args[1].val>>, S) IN IF r.sig # "ok" THEN r ELSE Ok(r.s, JustV(r.v))
+      [] name = "dict.new" -> AllocRef(S, NewDictObj)
+      [] name = "set.new" -> AllocRef(S, NewSetObj)
+      [] name = "dict.from_list" ->     \* later entries win
+           IF ~IsList(S, args[1]) THEN Halt(S, "stuck:from_list-on-non-list")
+           ELSE LET ps == S.heap[args[1].a].items IN
+                IF \E i \in 1..Len(ps) : ~IsPair(ps[i]) THEN Halt(S, "stuck:from_list-entry")
+                ELSE AllocRef(S, DictFromPairs(NewDictObj, ps, 1, S.heap))
+      [] name = "set.from_list" ->
+           IF ~IsList(S, args[1]) THEN Halt(S, "stuck:from_list-on-non-list")
+           ELSE AllocRef(S, SetFromItems(NewSetObj, S.heap[args[1].a].items, 1, S.heap))
+      [] name = "dict.update" ->
+           IF ~IsKind(S, args[1], "dict") THEN Halt(S, "stuck:dict-arg")
+           ELSE Ok([S EXCEPT !.heap[args[1].a] = DictPut(@, args[2], args[3], S.heap)], NilV)
+      [] name = "set.add" ->
+           IF ~IsKind(S, args[1], "set") THEN Halt(S, "stuck:set-arg")
+           ELSE Ok([S EXCEPT !.heap[args[1].a] = SetPut(@, args[2], S.heap)], NilV)
+      [] name = "dict.remove" ->
+           IF ~IsKind(S, args[1], "dict") THEN Halt(S, "stuck:dict-arg")
+           ELSE LET i == KeyIdx(S.heap[args[1].a].keys, args[2], S.heap) IN
+                IF i = 0 THEN Ok(S, NilV)
+                ELSE Ok([S EXCEPT !.heap[args[1].a].keys = SemDropAt(@, i), !.heap[args[1].a].vals = SemDropAt(@, i)], NilV)
+      [] name = "set.remove" ->
+           IF ~IsKind(S, args[1], "set") THEN Halt(S, "stuck:set-arg")
+           ELSE LET i == KeyIdx(S.heap[args[1].a].items, args[2], S.heap) IN
+                IF i = 0 THEN Ok(S, NilV) ELSE Ok([S EXCEPT !.heap[args[1].a].items = SemDropAt(@, i)], NilV)
+      [] name = "dict.get" ->
+           IF ~IsKind(S, args[1], "dict") THEN Halt(S, "stuck:dict-arg")
+           ELSE LET o == S.heap[args[1].a]  i == KeyIdx(o.keys, args[2], S.heap) IN
+                Ok(S, IF i = 0 THEN NoneV ELSE JustV(o.vals[i]))
+      [] name = "dict.contains_key" ->
+           IF ~IsKind(S, args[1], "dict") THEN Halt(S, "stuck:dict-arg")
+           ELSE Ok(S, BoolV(KeyIdx(S.heap[args[1].a].keys, args[2], S.heap) # 0))
+      [] name = "set.contains" ->
+           IF ~IsKind(S, args[1], "set") THEN Halt(S, "stuck:set-arg")
+           ELSE Ok(S, BoolV(KeyIdx(S.heap[args[1].a].items, args[2], S.heap) # 0))
+      [] name = "dict.len" ->
+           IF ~IsKind(S, args[1], "dict") THEN Halt(S, "stuck:dict-arg") ELSE Ok(S, IntV(Len(S.heap[args[1].a].keys)))
+      [] name = "set.len" ->
+           IF ~IsKind(S, args[1], "set") THEN Halt(S, "stuck:set-arg") ELSE Ok(S, IntV(Len(S.heap[args[1].a].items)))
+      [] name = "dict.for_each" ->      \* f is handed the entry (key, value)
+           IF ~IsKind(S, args[1], "dict") THEN Halt(S, "stuck:dict-arg")
+           ELSE LET o == S.heap[args[1].a] IN
+                IF Len(o.keys) >= 2 THEN Halt(S, "drop:iteration-order")
+                ELSE ForEach([i \in 1..Len(o.keys) |-> TupleV(<<o.keys[i], o.vals[i]>>)], 1, args[2], S)
+      [] name = "set.for_each" ->
+           IF ~IsKind(S, args[1], "set") THEN Halt(S, "stuck:set-arg")
+           ELSE IF Len(S.heap[args[1].a].items) >= 2 THEN Halt(S, "drop:iteration-order")
+           ELSE ForEach(S.heap[args[1].a].items, 1, args[2], S)
+      [] name = "dict.map" ->           \* f: (key, value) -> (key', value'); colliding key' would expose the order
+           IF ~IsKind(S, args[1], "dict") THEN Halt(S, "stuck:dict-arg")
+           ELSE LET o == S.heap[args[1].a]
+                    r == MapList([i \in 1..Len(o.keys) |-> TupleV(<<o.keys[i], o.vals[i]>>)], 1, args[2], S, <<>>) IN
+                IF r.sig # "ok" THEN r
+                ELSE LET ps == r.s.heap[r.v.a].items IN
+                     IF \E i \in 1..Len(ps) : ~IsPair(ps[i]) THEN Halt(r.s, "stuck:dict-map-result")
+                     ELSE LET d == DictFromPairs(NewDictObj, ps, 1, r.s.heap) IN
+                          IF Len(d.keys) # Len(ps) THEN Halt(r.s, "drop:iteration-order") ELSE AllocRef(r.s, d)
+      [] name = "set.map" ->            \* the result is a set: the order of the calls is not observable for a pure f
+           IF ~IsKind(S, args[1], "set") THEN Halt(S, "stuck:set-arg")
+           ELSE LET r == MapList(S.heap[args[1].a].items, 1, args[2], S, <<>>) IN
+                IF r.sig # "ok" THEN r
+                ELSE AllocRef(r.s, SetFromItems(NewSetObj, r.s.heap[r.v.a].items, 1, r.s.heap))
+      [] OTHER -> Halt(S, "drop:unknown-builtin-" \o name)
+
 CallBuiltin(name, args, S) ==
     CASE name = "print" -> Ok([S EXCEPT !.out = Append(@, [k |-> "print", v |-> Render(args[1], S.heap, 6)])], NilV)
       [] name = "list.push" ->
@@ -343,7 +506,7 @@ CallBuiltin(name, args, S) ==
       [] name = "list.find" ->
            IF ~IsList(S, args[1]) THEN Halt(S, "stuck:find-on-non-list")
            ELSE FindList(S.heap[args[1].a].items, 1, args[2], S)
-      [] OTHER -> Halt(S, "drop:unknown-builtin-" \o name)
+      [] OTHER -> StdExtra(name, args, S)
 
 ---------------------------------------------------------------------------
 (* Top level: one global at a time, then start() *)
